@@ -157,6 +157,7 @@ func runNet(s *vsimcore.Sim, p vsimcore.Params) vsimcore.RunInfo {
 			return true
 		}
 		stalled = w.run(done, w.byzActions)
+		w.finalChecks()
 		info.SimNs = int64(s.SimTime())
 		fill()
 		s.Checkpoint(info)
